@@ -189,6 +189,7 @@ NOISE = ["", "#", "# comment", "\t", "   ", "#\t#include X", "#!shebang"]
 MALFORMED = ["#include", "#include ", "#include B C", "#includeB", " #include B", "#include B # c", "#Include B",
              "#include\rB", "#include B\r", "x #include B", "#include\t\tB\tz", "#includeB C"]
 NAMES = "ABCDEFGHIJKL"
+LINEBUF = [2048]        # the reader's buffer size, set by run() from the constants regenerated from /repo
 
 
 def long_line(rng, target, fill=None, comment=None, linebuf=2048):
@@ -282,6 +283,20 @@ def gen_case(rng, stream, casedir):
     def resolved(n):
         r = ref[n]
         return r if r.startswith(("/", "./", "../")) else dtop + "/" + r
+
+    altseen = []
+
+    def spellings(n):
+        """the ways an include line may spell file n that RESOLVE TO THE SAME PATH STRING: the bare name (looked
+        up in the top file's directory), and that directory + "/" + name written out when it is a path used as
+        given (./B next to B when pdsh runs in the top directory, /abs/dir/B, ./t/B, ../case/t/B)"""
+        r = ref[n]
+        out = [r, r]
+        full = dtop + "/" + r
+        if not r.startswith(("/", "./", "../")) and full.startswith(("/", "./", "../")):
+            out.append(full)
+            altseen.append(full)
+        return out
     # include graph
     shape = rng.choice(["chain", "tree", "diamond", "cycle", "cycle-top", "self", "random", "none"])
     edges = {n: [] for n in names}
@@ -335,7 +350,8 @@ def gen_case(rng, stream, casedir):
         k = 0
         for i in range(nl + 1):
             while k < len(inc) and slots[k] == i:
-                lines.append("#include" + rng.choice([" ", "\t", "  ", " \t"]) + ref[inc[k]] + rng.choice(["", "", " ", "\t"]))
+                lines.append("#include" + rng.choice([" ", "\t", "  ", " \t"]) + rng.choice(spellings(inc[k])) +
+                             rng.choice(["", "", " ", "\t"]))
                 k += 1
             if i < nl:
                 r = rng.random()
@@ -346,11 +362,22 @@ def gen_case(rng, stream, casedir):
                 else:
                     lines.append(rng.choice(EXPRS))
         if stream == "long" and (n == "A" or rng.random() < 0.3):
+            step = LINEBUF[0] - 1
             for _ in range(rng.randrange(1, 3)):
-                tgt = rng.choice([2040, 2045, 2046, 2047, 2048, 2049, 2050, 2056, 4090, 4094, 4095, 4096, 4100, 1020,
-                                  1023, 1024, 1030, 6141, 6142, 2700, rng.randrange(2000, 9000),
-                                  rng.choice([20000, 65536, 102400])])
-                lines.insert(rng.randrange(0, len(lines) + 1), long_line(rng, tgt))
+                if rng.random() < 0.6:
+                    # with its newline the line is one byte short of / exactly / one byte more than k buffers
+                    tgt = rng.choice([1, 2, 3]) * step + rng.choice([-2, -1, 0])
+                else:
+                    tgt = rng.choice([2040, 2045, 2046, 2047, 2048, 2049, 2050, 2056, 4090, 4094, 4095, 4096, 4100, 1020,
+                                      1023, 1024, 1030, 6141, 6142, 2700, rng.randrange(2000, 9000),
+                                      rng.choice([20000, 65536, 102400])])
+                if rng.random() < 0.2:
+                    lines.append(long_line(rng, tgt))           # the LAST line (with or without its newline)
+                else:
+                    at = rng.randrange(0, len(lines) + 1)
+                    lines.insert(at, long_line(rng, tgt))
+                    if rng.random() < 0.7:
+                        lines.insert(at + 1, rng.choice(["foo1", "n[1-3]", "q", "host.dom", "#include " + ref[n]]))
         if stream == "malformed":
             for _ in range(rng.randrange(1, 4)):
                 lines.insert(rng.randrange(0, len(lines) + 1), rng.choice(MALFORMED))
@@ -402,7 +429,7 @@ def gen_case(rng, stream, casedir):
         if rng.random() < 0.15:
             env = top_cmd
     # exclusion files (-x ^F[,^G] / -^F): files of the top directory, named in the command-line style
-    if stream in ("plain", "broken") and rng.random() < 0.3:
+    if stream in ("plain", "broken", "long") and rng.random() < 0.3:
         cand = [n for n in names if ref[n] == n]
         brokenc = [n for n in cand if n in missing or n in unreadable]
         pos = rng.randrange(0, len(sources) + 1)
@@ -442,8 +469,10 @@ def gen_case(rng, stream, casedir):
         cur.append(word)
     if cur:
         argv.append(",".join(cur))
+    alt = any(("#include" in l and any(l.split()[-1:] == [a] for a in altseen))
+              for ct in files.values() for l in ct.split("\n"))
     return {"stream": stream, "shape": shape, "disk": disk, "fs": fs_top, "sources": sources, "wargs": argv,
-            "stdin": stdin, "env": env, "casedir": casedir, "nfiles": len(names)}
+            "stdin": stdin, "env": env, "casedir": casedir, "nfiles": len(names), "alt_spelling": alt}
 
 
 # ------------------------------------------------------------------ running the real pdsh
@@ -551,6 +580,117 @@ def max_line(case):
     for l in (case["stdin"] or "").split("\n"):
         m = max(m, len(l))
     return m
+
+
+BRANCHES = [
+    # wcoll_ctx_read_line / include_file
+    "line:blank", "line:comment", "line:expr", "line:expr+comment", "line:include", "line:include-invalid(no name)",
+    "line:include-invalid(extra token)", "line:include-without-blank", "line:#-not-in-column-0",
+    # wcoll_ctx_resolve_path / path_lookup
+    "resolve:bare-found", "resolve:bare-hidden(dot name)", "resolve:./", "resolve:../", "resolve:absolute",
+    "resolve:second-spelling-same-path", "resolve:colon-in-directory",
+    # wcoll_ctx_read_file
+    "include:skipped-with-warning", "include:missing-or-unreadable=errx", "include:cycle-back-to-top",
+    # wcoll_ctx_read_stream
+    "reader:last-line-without-newline", "reader:line>=buffer", "reader:line+nl=k*(buffer-1)-1",
+    "reader:line+nl=k*(buffer-1)", "reader:line+nl=k*(buffer-1)+1", "reader:exact-multiple-followed-by-line",
+    # read_wcoll / opt.c
+    "source:-w word", "source:^file", "source:- (stdin)", "source:^- (stdin)", "source:stdin-twice",
+    "source:WCOLL-used", "source:WCOLL-ignored", "source:-x ^file", "source:-^file word", "source:-x ^F,^G",
+    "source:top-missing-or-unreadable=errx", "source:comma-joined -w",
+    "outcome:ok", "outcome:errx", "outcome:no-remote-hosts",
+]
+
+
+def branches_of(c, r):
+    """which branches of the modelled functions a case drives (from the case and the real run)"""
+    b = set()
+    step = LINEBUF[0] - 1
+    contents = [ct for _, (rd, ct) in c["disk"].items()] + ([c["stdin"]] if c["stdin"] else [])
+    for ct in contents:
+        ls = ct.split("\n")
+        if ls and ls[-1] != "":
+            b.add("reader:last-line-without-newline")
+        for i, l in enumerate(ls):
+            n = len(l) + 1
+            if len(l) >= step:
+                b.add("reader:line>=buffer")
+            if len(l) > 100:
+                for d, tag in ((-1, "-1"), (0, ""), (1, "+1")):
+                    if (n - d) % step == 0:
+                        b.add("reader:line+nl=k*(buffer-1)" + tag)
+                        if d == 0 and i + 1 < len(ls) and ls[i + 1].strip():
+                            b.add("reader:exact-multiple-followed-by-line")
+            if l.strip(" \t") == "":
+                b.add("line:blank")
+            elif l.startswith("#include"):
+                toks = l[8:].split()
+                if not (l[8:9] in (" ", "\t")) and toks:
+                    b.add("line:include-without-blank")
+                elif len(toks) == 0:
+                    b.add("line:include-invalid(no name)")
+                elif len(toks) > 1:
+                    b.add("line:include-invalid(extra token)")
+                else:
+                    b.add("line:include")
+                    t = toks[0]
+                    b.add("resolve:absolute" if t.startswith("/") else "resolve:./" if t.startswith("./") else
+                          "resolve:../" if t.startswith("../") else
+                          "resolve:bare-hidden(dot name)" if t.startswith(".") else "resolve:bare-found")
+            elif l.startswith("#"):
+                b.add("line:comment")
+            elif "#" in l:
+                b.add("line:expr+comment" if l.split("#")[0].strip(" \t") else "line:#-not-in-column-0")
+            else:
+                b.add("line:expr")
+    if c.get("alt_spelling"):
+        b.add("resolve:second-spelling-same-path")
+    if c["stream"] == "colon":
+        b.add("resolve:colon-in-directory")
+    if c["shape"] == "cycle-top":
+        b.add("include:cycle-back-to-top")
+    if r.get("nmulti", 0) > 0:
+        b.add("include:skipped-with-warning")
+    nstdin = 0
+    for o in c["wargs"]:
+        k, w = opt_kind(o)
+        if k == "x":
+            b.add("source:-x ^F,^G" if "," in w else "source:-x ^file")
+            continue
+        if w == "-":
+            b.add("source:- (stdin)")
+            nstdin += 1
+            continue
+        pieces = split_top(w, ",")
+        if len(pieces) > 1:
+            b.add("source:comma-joined -w")
+        for pc in pieces:
+            if pc == "^-":
+                b.add("source:^- (stdin)")
+                nstdin += 1
+            elif pc.startswith("-^"):
+                b.add("source:-^file word")
+            elif pc.startswith("^"):
+                b.add("source:^file")
+            else:
+                b.add("source:-w word")
+    if nstdin > 1:
+        b.add("source:stdin-twice")
+    if c["env"] is not None:
+        b.add("source:WCOLL-used" if not any(s[0] != "x" for s in c["sources"]) else "source:WCOLL-ignored")
+    if r["rc"] == 0:
+        b.add("outcome:ok")
+    elif r.get("nohosts"):
+        b.add("outcome:no-remote-hosts")
+    elif r["rc"] == 1:
+        b.add("outcome:errx")
+        err = r.get("err", "")
+        tops = [s[1] for s in c["sources"] if s[0] in ("f", "x")] + ([c["env"]] if c["env"] else [])
+        if any(t not in c["fs"] or not c["fs"][t][0] for t in tops):
+            b.add("source:top-missing-or-unreadable=errx")
+        elif "No such file" in err or "Permission denied" in err:
+            b.add("include:missing-or-unreadable=errx")
+    return b
 
 
 def case_json(c):
@@ -734,7 +874,7 @@ def run(ctx):
         base = os.path.join(ctx.scratch, "c10")
         os.makedirs(base, exist_ok=True)
         os.chmod(base, 0o755)
-        linebuf = int(re.search(r"WCOLL_LINEBUFSIZE : Nat := (\d+)",
+        linebuf = LINEBUF[0] = int(re.search(r"WCOLL_LINEBUFSIZE : Nat := (\d+)",
                                 open(os.path.join(os.path.dirname(os.path.dirname(os.path.abspath(__file__))), "lean",
                                                   "PdshVerif", "Gen", "Wcoll.lean")).read()).group(1))
         # which reader is this?  decided on the real binary so that the model mirrors either form
@@ -759,6 +899,15 @@ def run(ctx):
         else:
             n = 900 if ctx.quick() else 12000
             cases = []
+            # the witnesses of Props/C10.lean `include_line_restriction_forced`, run on the real pdsh (model
+            # correspondence: the real binary must do what the reader side of the witness does), and an
+            # ordinary line with CR (inside the theorem's and the oracle's domain)
+            for wi, (wstream, a_content) in enumerate([("malformed", "#includeB\n"), ("malformed", "#include B C\nx1\n"),
+                                                       ("malformed", "#include B\r\n"), ("plain", "foo\r\nbar\n")]):
+                wd = {"d/A": (True, a_content), "d/B": (True, "b1\n")}
+                cases.append({"stream": wstream, "shape": "witness", "disk": dict(wd), "fs": dict(wd), "sources": [("f", "d/A")],
+                              "wargs": ["^d/A"], "stdin": None, "env": None, "casedir": os.path.join(base, "w%d" % wi),
+                              "nfiles": 2, "alt_spelling": False})
             for i in range(n):
                 stream = rng.choices(["plain", "broken", "long", "malformed", "colon"], [48, 18, 17, 13, 4])[0]
                 cases.append(gen_case(rng, stream, os.path.join(base, "k%d" % i)))
@@ -779,7 +928,7 @@ def run(ctx):
                                       "stdin": None, "env": None, "casedir": os.path.join(base, "b%d" % k), "nfiles": 1})
                         k += 1
         dist = {"streams": {}, "shapes": {}, "files": {}, "rc": {}, "reader": mode, "max_line_ge_2047": 0,
-                "with_stdin": 0, "with_env": 0, "skips": 0}
+                "with_stdin": 0, "with_env": 0, "skips": 0, "branches": {b: 0 for b in BRANCHES}}
         distinct = set()
         nshrunk = 0
         CH = 300
@@ -801,6 +950,9 @@ def run(ctx):
                     if sp0[0] == "ok" and target_hosts(sp0[1], sp0[3]) is None:
                         dist["exclusion_list_not_compared"] = dist.get("exclusion_list_not_compared", 0) + 1
                 dist["skips"] += r.get("nmulti", 0)
+                if r["rc"] in (0, 1):
+                    for tag in branches_of(c, r):
+                        dist["branches"][tag] = dist["branches"].get(tag, 0) + 1
                 if "flaky_first_rc" in r:
                     dist["crash_not_reproduced_on_rerun"] = dist.get("crash_not_reproduced_on_rerun", 0) + 1
                     ctx.notes.append("pdsh exited %s once and normally on the re-run: %s" % (r["flaky_first_rc"], c["wargs"]))
@@ -823,6 +975,7 @@ def run(ctx):
                         ctx.offender(sig, what, {"case": case_json(small), "real": r})
                     else:
                         ctx.disagreement("wcoll model vs pdsh: " + sig, what, case_json(c))
+        dist["branches_never_hit"] = sorted(b for b, n in dist["branches"].items() if n == 0)
         cov["distinct_nontrivial"] = len(distinct)
         cov["distribution"] = dist
         cov["traces_validated_against_impl"] = cov["evaluations"]
